@@ -143,6 +143,24 @@ theorem grpcInit_eq : GrpcSt.init.passNum = 0 + 1 ∧ GrpcSt.init.ammoNum = 0 :=
 
 /-! ## the generic JSON provider over MultiPassReader -/
 
+instance (n a ps : Nat) : Decidable (mprFruitless (n = 0) True (decodeProgress a ps)) := by
+  unfold mprFruitless; exact inferInstance
+
+/-- the reader as it is now (`Model.C08Mach.decodeNextNow`): bypass for passes = 1, the fruitless-pass rule with the
+progress function of `DecodeProvider.Run` (always set there: `True`; nothing read in a pass ⇔ the file has no entry),
+then the rewind condition -/
+theorem decodeNextNow_eq (passes n a fuel : Nat) (r : Mpr) (ps : Nat) :
+    decodeNextNow passes n a (fuel + 1) r ps =
+      if r.pos < n then (.entry r.pos, { r with pos := r.pos + 1 }, ps)
+      else if mprBypass passes then (.eof, r, ps)
+      else if mprFruitless (n = 0) True (decodeProgress a ps) then (.eof, { r with passesCount := r.passesCount + 1 }, a)
+      else if mprRewind passes r.passesCount then decodeNextNow passes n a fuel { pos := 0, passesCount := r.passesCount + 1 } a
+      else (.eof, { r with passesCount := r.passesCount + 1 }, a) := by
+  unfold mprBypass mprRewind mprFruitless decodeProgress
+  simp only [decodeNextNow, Nat.le_zero_eq, true_and]
+
+/-- the reader of the sequential model `Model.C08.decodeNext` (no fruitless-pass rule: unreachable for n ≥ 1, where
+every pass decodes an ammo) uses the same bypass and rewind conditions -/
 theorem decodeNext_eq (passes n fuel : Nat) (r : Mpr) :
     decodeNext passes n (fuel + 1) r =
       if r.pos < n then (.entry r.pos, { r with pos := r.pos + 1 })
@@ -152,19 +170,29 @@ theorem decodeNext_eq (passes n fuel : Nat) (r : Mpr) :
   unfold mprBypass mprRewind
   simp only [decodeNext, Nat.le_zero_eq]
 
-theorem genStep_eq (b : Bounds) (n a : Nat) (r : Mpr) :
-    genStep b n a r =
+theorem genStep_eq (b : Bounds) (n a : Nat) (r : Mpr) (ps : Nat) :
+    genStep b n a r ps =
       if ¬ decodeCond b.limit a then .ret .nil
-      else match decodeNext b.passes n 2 r with
-        | (.eof, _) => (match decodeOnEOF with | .ret x => .ret x | .offer i k => .offer i (k, r) | .tau k => .tau (k, r))
-        | (.spin, _) => .tau (a, r)
-        | (.entry i, r') => (match decodeStep a with | .ret x => .ret x | .offer _ k => .offer i (k, r') | .tau k => .tau (k, r')) := by
+      else match decodeNextNow b.passes n a 2 r ps with
+        | (.eof, _, _) => (match decodeOnEOF with | .ret x => .ret x | .offer i k => .offer i (k, r, ps) | .tau k => .tau (k, r, ps))
+        | (.spin, _, _) => .tau (a, r, ps)
+        | (.entry i, r', ps') => (match decodeStep a with | .ret x => .ret x | .offer _ k => .offer i (k, r', ps') | .tau k => .tau (k, r', ps')) := by
   unfold genStep decodeCond decodeOnEOF decodeStep
   by_cases h : b.limit = 0 ∨ a < b.limit
   · have h' : b.limit ≤ 0 ∨ a < b.limit := h.imp (by omega) id
     simp only [h, h', not_true_eq_false, if_false]
     split <;> simp_all
   · have h' : ¬ (b.limit ≤ 0 ∨ a < b.limit) := fun x => h (x.imp (by omega) id)
-    simp [h, h']
+    simp [h]
+
+/-! ## the engine's reaction to the provider's result -/
+
+/-- `Model.C08.poolFailsOnProvider` is awaitRun's provider case over errutil.IsCtxError: nil never fails the pool,
+context.Canceled (unwrapped: its Cause is the run context's error exactly when that context is cancelled) fails it
+only while the run context is live, every other error does -/
+theorem poolFails_eq (r : RunRes) (c : Bool) :
+    poolFailsOnProvider r c = true ↔ providerFailsPool (isCtxError (r = .nil) (r = .canceled ∧ c = true)) := by
+  unfold providerFailsPool isCtxError
+  cases r <;> cases c <;> simp [poolFailsOnProvider]
 
 end Pandora.Bridge.ProvLoops
